@@ -74,7 +74,7 @@ theorem msgOK_appS (s : Sess) (p : String) (hp : p ≠ "") : MsgOK (appMsgS s p)
   intro q hq
   have : q ∈ [(9000, p)] := hq
   simp only [List.mem_singleton] at this; subst this
-  exact ⟨hp, by simp, by simp, fun h => absurd (show isAdminKind "D" = true from h) (by decide)⟩
+  exact ⟨hp, by simp, by simp, fun h => absurd (show isAdminKind "D" = true from h) (by decide), by simp⟩
 
 theorem msgOK_app (p : String) (n : Int) (hp : p ≠ "") : MsgOK (appMsg n p) := by
   refine ⟨?_, (show "D" ≠ "" by decide), (show "D" ≠ "4" by decide), fun _ => ⟨p, rfl⟩, fun h => absurd (show "D" = "2" from h) (by decide)⟩
